@@ -1636,6 +1636,17 @@ func isByteSlice(t types.Type) bool {
 	return ok && b.Kind() == types.Uint8
 }
 
+// bytesToStrPure: the term for string(bs) without adding axioms to the trace (for specs).
+func (vc *VC) bytesToStrPure(st *State, s Term) Term {
+	idx := vc.ar.IdxSort()
+	bs := vc.ar.Sort(IntKind{8, false})
+	key, hs := vc.elemKey(types.Typ[types.Uint8])
+	arr := Select(vc.heapGet(st, key, hs), app(SInt, "s-ref", s))
+	as := arraySort(idx, bs)
+	vc.decl("fun:gs.of", fmt.Sprintf("(declare-fun gs.of (%s %s %s) Str)", as, idx, idx))
+	return app("Str", "gs.of", arr, app(idx, "s-off", s), app(idx, "s-len", s))
+}
+
 // bytesToStr: string(bs) as an uninterpreted function of contents, with len/at axioms.
 func (vc *VC) bytesToStr(st *State, s Term) Term {
 	idx := vc.ar.IdxSort()
